@@ -25,7 +25,7 @@ SHARD_TIMEOUT = {"quick": 900, "thorough": 3600}
 
 def plan(tier, seed):
     n = 14
-    ngen = 50 if tier == "quick" else 1500
+    ngen = 160 if tier == "quick" else 1500
     nvar = 5 if tier == "quick" else 10
     specs = [{"name": f"gen-{i}", "mode": "gen", "n": ngen, "nvar": nvar, "rseed": seed * 7919 + i} for i in range(n)]
     specs.append({"name": "corpus", "mode": "corpus", "nvar": 3 if tier == "quick" else 8, "rseed": seed})
